@@ -309,8 +309,10 @@ Definition M_mv (src dst : path) (t : tree) : out * tree :=
     let target_file := if target_exists then p_is_file dst t
                        else negb target_ends_with_separator && has_ext dst in
     if source_file && target_file then
-      let '(ok, t1) := f_create_parent dst t in
-      if ok then let '(ok2, t2) := x_move_file src dst true t1 in (oerr ok2, t2) else (OErr, t1)
+      if p_same_file src dst t then (OErr, t)          (* "Source and target are the same file." *)
+      else
+        let '(ok, t1) := f_create_parent dst t in
+        if ok then let '(ok2, t2) := x_move_file src dst true t1 in (oerr ok2, t2) else (OErr, t1)
     else if negb source_file && negb target_file && negb source_ends_with_separator
             && negb target_ends_with_separator then
       let '(ok, t1) := p_rename src dst t in (oerr ok, t1)
@@ -493,14 +495,12 @@ Definition mv_target (src dst : path) (t : tree) : path :=
   if p_is_dir dst t || ends_sep dst
   then match last (pk src) with Some name => pjoin dst name | None => dst end
   else dst.
-(* "copy" here is the plain placement of an equal file at the target (mv of a file onto itself is
-   therefore still copy-then-delete, as in the code; only cp refuses source = target) *)
 Definition S_mv (src dst : path) (t : tree) : out * tree :=
   match stat src t with
-  | Some (File c) =>
-    match put_file (mv_target src dst t) c t with
-    | Some t1 => let '(ok, t2) := S_rm_one false src t1 in (oerr ok, t2)
-    | None => (OErr, t)
+  | Some (File _) =>
+    match S_cp src (mv_target src dst t) t with
+    | (OVal _, t1) => let '(ok, t2) := S_rm_one false src t1 in (oerr ok, t2)
+    | _ => (OErr, t)                                (* a failing copy makes the move fail *)
     end
   | _ => (OErr, t)
   end.
@@ -613,8 +613,8 @@ Definition dom_step (o : op) (t : tree) : bool :=
    (2        cp FILE onto itself emptied it — repaired in /repo: now an error that changes nothing)
    3         write / append / touch / cp to a name written with a trailing separator fails, but the
              missing parent directories it created stay
-   4         mv FILE into a directory that already has a file of that name is refused, although
-             mv FILE onto an existing file overwrites it *)
+   4         mv FILE into a directory that already has ANOTHER file of that name is refused,
+             although mv FILE onto an existing file overwrites it *)
 Definition trailing_partial (p : path) (t : tree) : bool :=
   ptr p && negb (is_dir_at t (parent (pk p)))
   && match mkdirs (parent (pk p)) t with Some _ => true | None => false end.
@@ -624,7 +624,8 @@ Definition known_step (o : op) (t : tree) : N :=
     if p_is_file a t then
       if negb (p_exists b t) && negb (ends_sep b) && negb (has_ext b)
          && match mkdirs (pk b) t with Some _ => true | None => false end then 1%N
-      else if (p_is_dir b t || ends_sep b) && is_file_at t (pk (mv_target a b t)) then 4%N
+      else if (p_is_dir b t || ends_sep b) && is_file_at t (pk (mv_target a b t))
+              && negb (bool_decide (pk a = pk (mv_target a b t))) then 4%N
       else 0%N
     else 0%N
   | Cp a b =>
